@@ -411,6 +411,7 @@ pub fn c03_cases(c: &Corpus, quick: bool) -> Vec<IoRun> {
                                 affine,
                                 debug,
                                 fail_at,
+                                alternate: false,
                             },
                             IoPlan::default(),
                             IoPlan::default(),
@@ -419,6 +420,26 @@ pub fn c03_cases(c: &Corpus, quick: bool) -> Vec<IoRun> {
                         ..Default::default()
                     });
                 }
+            }
+        }
+        for affine in [false, true] {
+            for debug in [false, true] {
+                out.push(IoRun {
+                    pool: prog.clone(),
+                    records: vec![one_record(
+                        Payload::Fmt {
+                            idx: last,
+                            affine,
+                            debug,
+                            fail_at: None,
+                            alternate: true,
+                        },
+                        IoPlan::default(),
+                        IoPlan::default(),
+                        RecvMode::Compressed,
+                    )],
+                    ..Default::default()
+                });
             }
         }
         // uncompressed mode of the three serialisers
@@ -632,6 +653,30 @@ pub fn c11_cases(quick: bool) -> Vec<IoRun> {
                 )],
                 ..Default::default()
             });
+        }
+        // containers of field elements with one non-canonical item at every position (ark-serialize reads items with Validate::No)
+        {
+            let good = hex(&f.to_le(&vals[5]));
+            let mut pb = f.p.to_bytes_le();
+            pb.resize(f.nbytes, 0);
+            let mut p1 = (&f.p + 1u32).to_bytes_le();
+            p1.resize(f.nbytes, 0);
+            for bad in [hex(&pb), hex(&p1), hex(&vec![0xffu8; f.nbytes])] {
+                for l in 1..=3usize {
+                    for pos in 0..l {
+                        let items: Vec<String> = (0..l).map(|i| if i == pos { bad.clone() } else { good.clone() }).collect();
+                        out.push(IoRun {
+                            records: vec![one_record(
+                                Payload::RawVecField { which: w, items },
+                                IoPlan::default(),
+                                IoPlan::default(),
+                                RecvMode::Compressed,
+                            )],
+                            ..Default::default()
+                        });
+                    }
+                }
+            }
         }
         // reduction of structured byte strings of every length 0..=200 (pure clause, sampled)
         for l in (0..=200usize).step_by(if quick { 7 } else { 1 }) {
